@@ -680,6 +680,10 @@ C10PathOf(pre, post, p, sw, aToB) ==
 
 C10Swap(pre, e, post) ==
   /\ Sub("one_swap_record", Len(e.swaps) = 1 /\ e.swaps[1].done)
+  \* the current tick index follows the trade direction (a swap that cannot move the price leaves it alone):
+  \* otherwise a tick already crossed would be crossed again, or skipped on the way back
+  /\ Sub("tick_moves_in_trade_direction", IF e.args.aToB THEN post.pool[APool(e)].tick <= pre.pool[APool(e)].tick
+                                                          ELSE pre.pool[APool(e)].tick <= post.pool[APool(e)].tick)
   /\ C10PathOf(pre, post, APool(e), e.swaps[1], e.args.aToB)
 
 C10Pack(pre, e) ==
